@@ -140,11 +140,12 @@ theorem EighOK.quad {Z : Mat ℝ} {n : Nat} {D : List ℝ} {V : Mat ℝ} (h : Ei
   rw [Finset.sum_congr rfl e, ← Finset.mul_sum, h.ortho.orth c hc c' hc']
   split <;> simp
 
-/-- The energy kept by the columns `σ 0, …, σ (p-1)` of `V` is the sum of their eigenvalues. -/
-theorem normSq_ttmT_eigcols (Y : Dense ℝ) (k : Nat) (hk : k < Y.shape.length) (D : List ℝ) (V U : Mat ℝ)
-    (h : EighOK (gramMode Y k) (Y.shape.getD k 0) D V) (σ : Nat → Nat)
+/-- The energy kept by the columns `± V[:, σ 0], …, ± V[:, σ (p-1)]` is the sum of their eigenvalues. -/
+theorem normSq_ttmT_eigcols_signed (Y : Dense ℝ) (k : Nat) (hk : k < Y.shape.length) (D : List ℝ) (V U : Mat ℝ)
+    (h : EighOK (gramMode Y k) (Y.shape.getD k 0) D V) (σ : Nat → Nat) (ε : Nat → ℝ)
+    (hε : ∀ i < U.ncols, ε i * ε i = 1)
     (hσ : ∀ i < U.ncols, σ i < Y.shape.getD k 0)
-    (hU : ∀ a < Y.shape.getD k 0, ∀ i < U.ncols, U.get a i = V.get a (σ i)) :
+    (hU : ∀ a < Y.shape.getD k 0, ∀ i < U.ncols, U.get a i = ε i * V.get a (σ i)) :
     normSq (ttmT Y U k true) = ∑ i ∈ range U.ncols, D.getD (σ i) 0 := by
   rw [normSq_ttmT_quad Y U k hk]
   apply Finset.sum_congr rfl
@@ -156,6 +157,19 @@ theorem normSq_ttmT_eigcols (Y : Dense ℝ) (k : Nat) (hk : k < Y.shape.length) 
   apply Finset.sum_congr rfl; intro a ha
   apply Finset.sum_congr rfl; intro b hb
   rw [hU a (Finset.mem_range.1 ha) i hi', hU b (Finset.mem_range.1 hb) i hi']
+  have e := hε i hi'
+  calc ε i * V.get a (σ i) * (ε i * V.get b (σ i)) * (gramMode Y k).get a b
+      = (ε i * ε i) * (V.get a (σ i) * V.get b (σ i) * (gramMode Y k).get a b) := by ring
+    _ = V.get a (σ i) * V.get b (σ i) * (gramMode Y k).get a b := by rw [e, one_mul]
+
+/-- The energy kept by the columns `σ 0, …, σ (p-1)` of `V` is the sum of their eigenvalues. -/
+theorem normSq_ttmT_eigcols (Y : Dense ℝ) (k : Nat) (hk : k < Y.shape.length) (D : List ℝ) (V U : Mat ℝ)
+    (h : EighOK (gramMode Y k) (Y.shape.getD k 0) D V) (σ : Nat → Nat)
+    (hσ : ∀ i < U.ncols, σ i < Y.shape.getD k 0)
+    (hU : ∀ a < Y.shape.getD k 0, ∀ i < U.ncols, U.get a i = V.get a (σ i)) :
+    normSq (ttmT Y U k true) = ∑ i ∈ range U.ncols, D.getD (σ i) 0 :=
+  normSq_ttmT_eigcols_signed Y k hk D V U h σ (fun _ => 1) (fun _ _ => by ring) hσ
+    (fun a ha i hi => by rw [hU a ha i hi, one_mul])
 
 /-- The whole energy is the sum of all eigenvalues. -/
 theorem normSq_eq_sum_eig (Y : Dense ℝ) (hY : Y.WF) (k : Nat) (hk : k < Y.shape.length) (D : List ℝ) (V : Mat ℝ)
